@@ -1,4 +1,5 @@
 import DaeVerif.C18.Proofs
+import DaeVerif.C18.History
 /-!
 # C18 — property theorems
 
@@ -13,11 +14,6 @@ All theorems are about the definitions of `Model.lean` that the driver `c18drv` 
 -/
 namespace DaeVerif.C18.Props
 open DaeVerif.C18
-
-/-- "known to be genuine" as the code decides it in domain mode: not an IP-like value, and either
-an unexpired knowledge entry for `(name, family of dst)` or membership in the verified set. -/
-def genuine (w : World) (dst : Dst) (d : Str) : Bool :=
-  !isIPLike d && ((hasKnowledge w (cacheKey d dst.is4)).2 || w.realSet.contains d)
 
 /-! ## row 1: ip mode, no name, built-in outbound -/
 
@@ -273,8 +269,25 @@ example : parseAddrOk "fe80::1%]x".toList = true := by decide
 target is `name:port`. -/
 theorem sniffed_plain_name (raw : Str) (p : Nat) (hp : Plain (preNorm raw)) :
     normalizeDomain raw =
-      (if (preNorm raw).getLast? = some '.' then (preNorm raw).dropLast else preNorm raw) :=
-  normalize_plain hp
+      (if (preNorm raw).getLast? = some '.' then (preNorm raw).dropLast else preNorm raw) ∧
+    splitHostPort (nameTarget (normalizeDomain raw) p).1 = some (normalizeDomain raw, itoa p) := by
+  have n := normalize_plain hp
+  refine ⟨n, ?_⟩
+  -- the normalised name is a sub-list of a plain string, hence plain
+  have hpl : Plain (normalizeDomain raw) := by
+    rw [n]
+    split
+    · apply plain_of_forall
+      intro c hc
+      have hc' : c ∈ preNorm raw := List.dropLast_subset _ hc
+      exact ⟨(hasChar_false_iff _ _).1 hp.1 c hc', (hasChar_false_iff _ _).1 hp.2.1 c hc',
+             (hasChar_false_iff _ _).1 hp.2.2 c hc'⟩
+    · exact hp
+  have sb : stripBrackets (normalizeDomain raw) = normalizeDomain raw := stripBrackets_of_no_open hpl.2.1
+  have hs : splitHostPort (normalizeDomain raw) = none := by unfold splitHostPort; rw [splitLast_none hpl.1]
+  rcases nameTarget_wellFormed (normalizeDomain raw) p (by rw [sb]; exact hpl.noBr) with w | ⟨_, w⟩
+  · rw [sb] at w; exact w
+  · rw [sb, hs] at w; simp at w
 
 /-- `name:port` and `v4:port`: the port is dropped by the sniffer, the destination port is used. -/
 theorem sniffed_host_port (raw h q : Str) (p : Nat) (e : preNorm raw = h ++ ':' :: q)
@@ -316,5 +329,129 @@ example : normalizeDomain "Example.com:8443".toList = "example.com".toList := by
 example : normalizeDomain "[2606:4700::1111]:443".toList = "2606:4700::1111".toList := by decide
 example : normalizeDomain "[2606:4700::1111]".toList = "2606:4700::1111".toList := by decide
 example : normalizeDomain "2606:4700::1111".toList = "2606:4700::1111".toList := by decide
+
+/-! ## "known to be genuine": where knowledge and the verified set come from
+
+Histories are lists of `Event`s (mode / resolver-count changes, clock advances, resolutions through
+dae, cache removals, knowledge queries, `ChooseDialTarget` calls, completed probes) applied by
+`run`; `trace w es` pairs every event with the world it was applied in. -/
+
+/-- `HasDnsKnowledge` answers true **only** between a resolution through dae of that (name, type)
+family and the original deadline (`now + ttl` at the time) of that resolution. -/
+theorem knowledge_only_from_resolution_within_ttl (w0 : World)
+    (hc : w0.cache = []) (hk : w0.know = []) (hr : w0.realSet = []) (es : List Event)
+    (name : Str) (is4 : Bool)
+    (h : (hasKnowledge (run w0 es) (cacheKey name is4)).2 = true) :
+    ∃ x ∈ trace w0 es, ∃ host f ttl key,
+      x.2 = .dnsUpdate host f ttl key ∧ (dnsUpdate x.1 host f ttl key).2 = true ∧
+      baseKeyOf (updateKey host f key) = cacheKey name is4 ∧
+      x.1.now ≤ (run w0 es).now ∧ (run w0 es).now < x.1.now + ttl := by
+  obtain ⟨_, e, he, hlt⟩ := (hasKnowledge_true_iff _ _).1 h
+  have inv := (Inv.init w0 hc hk hr).run es
+  simp only [List.nil_append] at inv
+  obtain ⟨x, hx, ck, ⟨host, f, ttl, key, h1, h2, h3, h4⟩, hb, hn⟩ := inv.know _ _ (Assoc.mem_of_get he)
+  exact ⟨x, hx, host, f, ttl, key, h1, h2, by rw [h3]; exact hb, hn, by rw [← h4]; exact hlt⟩
+
+/-- Conversely, after a resolution through dae the answer stays true until the original deadline,
+whatever else happens — except removals of cache entries of the same family (those recompute the
+entry from the remaining scoped entries, `syncDnsKnowledgeLocked`). -/
+theorem knowledge_holds_until_original_ttl (w : World) (host : Str) (is4 : Bool) (ttl : Int) (key : Str)
+    (es : List Event)
+    (hu : (dnsUpdate w host is4 ttl key).2 = true)
+    (hne : baseKeyOf (updateKey host is4 key) ≠ [])
+    (hes : ∀ e ∈ es, keepsFamily (baseKeyOf (updateKey host is4 key)) e)
+    (hnow : (run (dnsUpdate w host is4 ttl key).1 es).now < w.now + ttl) :
+    (hasKnowledge (run (dnsUpdate w host is4 ttl key).1 es) (baseKeyOf (updateKey host is4 key))).2 = true := by
+  have hh := (dnsUpdate_holds w host is4 ttl key hu hne).run es hes
+  rcases hh with ⟨e, he, hle⟩ | hh
+  · exact (hasKnowledge_true_iff _ _).2 ⟨hne, e, he, by omega⟩
+  · omega
+
+-- the key under which `ChooseDialTarget` asks is the key under which `UpdateDnsCacheTtl` remembers
+example : baseKeyOf (updateKey "Example.COM".toList true []) = cacheKey "example.com".toList true := by decide
+example : baseKeyOf (updateKey "example.com.".toList false ("example.com.28|asis@1.1.1.1:53".toList))
+    = cacheKey "EXAMPLE.com".toList false := by decide
+-- non-vacuity of both theorems on a concrete history
+example :
+    let es := [Event.dnsUpdate "a.test".toList true 2000000000 [], Event.advance 1999999999]
+    (hasKnowledge (run {} es) (cacheKey "a.test".toList true)).2 = true ∧
+    (hasKnowledge (run {} (es ++ [Event.advance 1])) (cacheKey "a.test".toList true)).2 = false := by decide
+
+/-- the verified set only ever contains names for which a probe completed with an address from
+some bootstrap resolver. -/
+theorem real_set_only_from_positive_probe (w0 : World)
+    (hc : w0.cache = []) (hk : w0.know = []) (hr : w0.realSet = []) (es : List Event) (d : Str)
+    (h : d ∈ (run w0 es).realSet) :
+    ∃ x ∈ trace w0 es, ∃ ans, x.2 = .probeDone d ans ∧ x.1.nboot ≠ 0 ∧
+      ((probeResult x.1 ans).ip4 || (probeResult x.1 ans).ip6) = true ∧
+      ((probeResult x.1 ans).err4 && (probeResult x.1 ans).err6) = false := by
+  have inv := (Inv.init w0 hc hk hr).run es
+  simp only [List.nil_append] at inv
+  obtain ⟨x, hx, hp⟩ := inv.real d h
+  exact ⟨x, hx, hp⟩
+
+/-- Putting it together: in domain mode a name is sent to the proxy only if, earlier in the
+history, it was resolved through dae (same family as the destination, original TTL not yet over)
+or verified by a positive probe. -/
+theorem genuine_name_has_witness (w0 : World)
+    (hc : w0.cache = []) (hk : w0.know = []) (hr : w0.realSet = []) (es : List Event)
+    (dst : Dst) (d : Str) (h : genuine (run w0 es) dst d = true) :
+    isIPLike d = false ∧
+    ((∃ x ∈ trace w0 es, ∃ host f ttl key,
+        x.2 = .dnsUpdate host f ttl key ∧ (dnsUpdate x.1 host f ttl key).2 = true ∧
+        baseKeyOf (updateKey host f key) = cacheKey d dst.is4 ∧
+        x.1.now ≤ (run w0 es).now ∧ (run w0 es).now < x.1.now + ttl) ∨
+     (∃ x ∈ trace w0 es, ∃ ans, x.2 = .probeDone d ans ∧ x.1.nboot ≠ 0 ∧
+        ((probeResult x.1 ans).ip4 || (probeResult x.1 ans).ip6) = true ∧
+        ((probeResult x.1 ans).err4 && (probeResult x.1 ans).err6) = false)) := by
+  unfold genuine at h
+  simp only [Bool.and_eq_true, Bool.not_eq_true', Bool.or_eq_true] at h
+  refine ⟨h.1, ?_⟩
+  rcases h.2 with hkn | hrs
+  · exact Or.inl (knowledge_only_from_resolution_within_ttl w0 hc hk hr es d dst.is4 hkn)
+  · exact Or.inr (real_set_only_from_positive_probe w0 hc hk hr es d (by simpa using hrs))
+
+/-- a negatively cached name (probe said "no such name", entry not yet expired) is neither used
+nor probed again. -/
+theorem negative_cached_name_not_used (w : World) (ob : Nat) (dst : Dst) (d : Str) (e : Int)
+    (hm : w.mode = .domain) (hg : genuine w dst d = false)
+    (hneg : w.neg.get d = some e) (hlive : w.now < e) :
+    (chooseDialTarget w ob dst d).2.target = fmtAddrPort dst ∧
+    (chooseDialTarget w ob dst d).2.probeReq = none := by
+  refine ⟨(domain_mode_otherwise_ip w ob dst d hm hg).1, ?_⟩
+  by_cases h : d = [] ∨ isReserved ob = true
+  · rw [ip_target_when_ip_mode_or_no_name_or_reserved w ob dst d (Or.inr h)]
+  · have hd : d ≠ [] := fun e => h (Or.inl e)
+    have hr : isReserved ob = false := by cases hh : isReserved ob <;> simp_all
+    rw [chooseDialTarget_eq, decideMode_domain w ob dst d hm hr hd]
+    unfold genuine at hg
+    cases hi : isIPLike d with
+    | true => simp
+    | false =>
+      rw [hi] at hg
+      simp only [Bool.not_false, Bool.true_and, Bool.or_eq_false_iff] at hg
+      -- the negative entry survives `hasKnowledge` and is found by `lookupReal`
+      have hnegk : (hasKnowledge w (cacheKey d dst.is4)).1.neg = w.neg ∧
+          (hasKnowledge w (cacheKey d dst.is4)).1.now = w.now := by
+        unfold hasKnowledge; split
+        · exact ⟨rfl, rfl⟩
+        · split
+          · exact ⟨rfl, rfl⟩
+          · split <;> exact ⟨rfl, rfl⟩
+      have hrs := hasKnowledge_realSet w (cacheKey d dst.is4)
+      have hl : (lookupReal (hasKnowledge w (cacheKey d dst.is4)).1 d).2.1 = true ∧
+          (lookupReal (hasKnowledge w (cacheKey d dst.is4)).1 d).2.2 = false := by
+        unfold lookupReal
+        rw [hrs, hnegk.1, hnegk.2, hg.2, hneg]
+        simp [hlive]
+      simp [hg.1, hl.1, hl.2]
+
+example :
+    let w : World := { mode := .domain, now := 5, neg := [("nx.test".toList, 9)] }
+    (chooseDialTarget w 2 ⟨true, 0x01020304, 443⟩ "nx.test".toList).2 =
+      { target := "1.2.3.4:443".toList, reroute := false, dialIp := true, probeReq := none } ∧
+    -- once the negative entry expired the name is probed again
+    (chooseDialTarget { w with now := 9 } 2 ⟨true, 0x01020304, 443⟩ "nx.test".toList).2.probeReq
+      = some "nx.test".toList := by decide
 
 end DaeVerif.C18.Props
